@@ -166,8 +166,14 @@ func (c *Client) Head(url string) (resp *http.Response, err error) {
 
 func respUnauthorizedNegotiate(resp *http.Response) bool {
 	if resp.StatusCode == http.StatusUnauthorized {
-		if resp.Header.Get(HTTPHeaderAuthResponse) == HTTPHeaderAuthResponseValueKey {
-			return true
+		// The server may offer several schemes, in several header fields or as a list in one, and the scheme name is
+		// case-insensitive (RFC 7235).
+		for _, v := range resp.Header.Values(HTTPHeaderAuthResponse) {
+			for _, ch := range strings.Split(v, ",") {
+				if strings.EqualFold(strings.TrimSpace(ch), HTTPHeaderAuthResponseValueKey) {
+					return true
+				}
+			}
 		}
 	}
 	return false
